@@ -103,7 +103,7 @@ func mk(op, sort string, args ...*Term) *Term {
 func smtName(s string) string {
 	ok := true
 	for _, c := range s {
-		if !(c >= 'a' && c <= 'z' || c >= 'A' && c <= 'Z' || c >= '0' && c <= '9' || c == '_' || c == '.' || c == '$' || c == '!' || c == '@' || c == '#') {
+		if !(c >= 'a' && c <= 'z' || c >= 'A' && c <= 'Z' || c >= '0' && c <= '9' || c == '_' || c == '.' || c == '$' || c == '!' || c == '@') {
 			ok = false
 			break
 		}
@@ -143,8 +143,8 @@ func BoundVar(name, sort string) *Term {
 	return t
 }
 
-func (t *Term) isSym() bool   { return strings.HasPrefix(t.op, "$sym:") }
-func (t *Term) isBV() bool    { return strings.HasPrefix(t.op, "$bv:") }
+func (t *Term) isSym() bool { return strings.HasPrefix(t.op, "$sym:") }
+func (t *Term) isBV() bool  { return strings.HasPrefix(t.op, "$bv:") }
 func (t *Term) symName() string {
 	if t.isSym() {
 		return t.op[5:]
